@@ -5,6 +5,8 @@ import Revm.Proofs.EvmHost
 import Revm.Proofs.EvmSpec
 import Revm.Proofs.EvmRefineMain
 import Revm.Proofs.EvmRefineE7
+import Revm.Proofs.EvmRefineAdm
+import Revm.Proofs.EvmTerm
 /-! C01 — "For every pre-state, block environment, valid transaction and hardfork from Frontier to Prague, executing the
 transaction yields the same outcome class, the same gas used, the same return data and logs, and the same post-state as
 the Ethereum execution specification."
@@ -92,7 +94,16 @@ theorem transact_result_class_total_partial (fuel : Nat) (w w' : World) (e : Evm
   Proofs.Evm.transact_class fuel w w' e spec r h
 
 /-- the full statement of totality: on a fresh world whose oracle answers every question the run asks, `2 · gas_limit + 2`
-units of fuel always suffice and the run never panics -/
+units of fuel always suffice and the run never panics. NOT proved. Reduction available (`Proofs/EvmTerm.lean`,
+`runLoop_fuel`, generic in the subroutine discipline): if every iteration from a state satisfying an invariant `I` keeps
+`I` and lowers a measure `μ` (or stops with an error other than `outOfFuel`), then with more fuel than `μ` the loop
+never runs out of fuel. To instantiate it — `I` = every frame on the stack satisfies C25's interpreter invariant for its
+code, the journal is well formed (C07 `Good`), the accounts the frames run on are loaded; `μ` = `2 · Σ (remaining gas +
+memory cost paid) + number of frames` ≤ `2 · gas_limit + 1` — one needs C25's `RespOk` for every `EvmHost` answer and
+`ChildOk` for every delivered result (`step_good`), `init_inv` for every new frame (byte strings within `isize::MAX` in the
+code store, `new_context` / `free_context` keep the memory invariant), L1's frame accounting for the hand-over of gas,
+and the panic-freedom of the journal operations (C07 `*_total`) threaded through `make_call_frame`,
+`make_create_frame` and the returns. -/
 def FullStatement_transact_total : Prop :=
   ∀ (spec : Nat) (pre : List PreAcct) (dbHasStorage : Bool) (oracle : List PcAnswer) (e : Evm.Env),
     (∀ p ∈ pre, p.codeHash = (if p.code.isEmpty then Evm.KECCAK_EMPTY else Keccak.keccak256w p.code)) →
@@ -332,6 +343,37 @@ example : ∃ x, transactStrict 50
       tx := { caller := 0xaa, gasLimit := 100000, gasPrice := 10, to := some 0xbb, value := 5, nonce := some 0 } }
     17 = .ok x :=
   Proofs.Evm.exists_of_isOk (by decide +kernel)
+
+open Revm.Spec.Evm in
+/-- WHERE the admissibility hypothesis is used, as two named conditions on the world at the only two places of the frame
+machine that consult it. The strict machine differs from the model exactly there:
+* `create_account_checkpoint` in `make_create_frame` — it is the model's under `CreateTargetFresh w a has_storage` (the
+  target is not an account already created in this transaction unless the collision check fires anyway) and stops
+  otherwise;
+* `set_code` in `create_return` — it is the model's under `CodeEmptyAt w a` (the code of the address whose creation
+  returns is still empty) and stops otherwise.
+Both are consequences of the freshness of `CREATE` / `CREATE2` address derivation inside one transaction (a derived
+address is not that of an account created earlier in the transaction that still has empty code and nonce 0); from
+Spurious Dragon on the created account carries nonce 1, so the collision check alone gives `CreateTargetFresh`
+(`Proofs.EvmRefine.createTargetFresh_of_nonce`) once `created → nonce ≠ 0` is known along the run. Deriving the two
+conditions for every reachable state is an invariant of the whole run (the addresses of the open creations) that is NOT
+proved here: `¬ StopsInadmissible` stays the hypothesis of `transact_refines_spec_partial`, and the driver evaluates it
+on the tested transactions. -/
+theorem admissibility_sites (w : World) (caller a : Nat) (hs : Bool) (v spec hash : Nat) :
+    ((Proofs.EvmRefine.CreateTargetFresh w a hs →
+        journalOpsStrict.createCheckpoint w caller a hs v spec = journalOps.createCheckpoint w caller a hs v spec) ∧
+      (¬ Proofs.EvmRefine.CreateTargetFresh w a hs →
+        ∃ e, journalOpsStrict.createCheckpoint w caller a hs v spec = .error e ∧ Proofs.EvmRR.Esc e)) ∧
+    ((Proofs.EvmRefine.CodeEmptyAt w a → journalOpsStrict.setCode w a hash = journalOps.setCode w a hash) ∧
+      (¬ Proofs.EvmRefine.CodeEmptyAt w a →
+        ∃ e, journalOpsStrict.setCode w a hash = .error e ∧ Proofs.EvmRR.Esc e)) :=
+  ⟨Proofs.EvmRefine.strict_create_iff w caller a hs v spec, Proofs.EvmRefine.strict_setCode_iff w a hash⟩
+
+/-- the hypotheses are satisfiable: nothing is loaded in a fresh world, both conditions hold -/
+example : Proofs.EvmRefine.CreateTargetFresh (Spec.Evm.freshWorld 17 [] true []) 0xaa false ∧
+    Proofs.EvmRefine.CodeEmptyAt (Spec.Evm.freshWorld 17 [] true []) 0xaa :=
+  ⟨fun acc h => by simp [Spec.Evm.freshWorld, Journal.JState.new] at h,
+   fun acc h => by simp [Spec.Evm.freshWorld, Journal.JState.new] at h⟩
 
 open Revm.Spec.Evm in
 /-- the same from any world that satisfies `Start` (not only a fresh one): the journal has its transaction level, code
